@@ -1699,3 +1699,1161 @@ def samples(alphabet: t.Iterable[str], maxlen: int) -> list[str]:
         for tup in itertools.product(al, repeat=n):
             out.append("".join(tup))
     return out
+
+
+# ---------------------------------------------------------------------------------------------------------------
+# Machine: evaluation of whole functions of the source on concrete constants
+#
+# The summaries above abstract loops (generic element, loop-carried values become "one of"), which is what the pattern
+# rules need but cannot follow a *scanner*: a ``while`` loop that consumes its input piece by piece (key / value /
+# advance to the next section) or a parser whose verdict on one item depends on what the previous items left behind.
+# For laws of the form "for every value v of a finite family, read(write(v)) == v" the Machine walks the syntax trees of
+# the writer and the reader statement by statement over concrete Python constants (str / int / list / dict / tuple ...),
+# with the semantics of the builtin types, of ``re`` applied to regex constants folded from the source, and of a few
+# pure stdlib functions.  Nothing of werkzeug is imported or run: functions and classes of the package exist only as
+# syntax trees (instances are records of attributes, methods are looked up along the MRO the loader computes).  A
+# construct outside the modelled fragment raises ``NotModelled`` (an AnalysisError -> exit 2), never a verdict.
+
+
+class NotModelled(AnalysisError):
+    """a construct / library call outside the fragment the Machine evaluates."""
+
+
+class OutOfSteps(Exception):
+    """the evaluation did not finish within the step budget (a loop that does not advance)."""
+
+
+class ExcVal:
+    """an exception object of a builtin / stdlib class raised by the evaluated program."""
+
+    def __init__(self, pycls: type, args: tuple = ()):
+        self.pycls = pycls
+        self.args = args
+
+    @property
+    def kind(self) -> str:
+        return self.pycls.__name__
+
+
+class ProgramRaise(Exception):
+    def __init__(self, value: t.Any):
+        super().__init__(getattr(value, "kind", "exception"))
+        self.value = value
+
+    @property
+    def kind(self) -> str:
+        v = self.value
+        return v.kind if isinstance(v, ExcVal) else v.ci.name
+
+
+class Obj:
+    """instance of a class of the package: a record of attributes."""
+
+    __slots__ = ("ci", "attrs")
+
+    def __init__(self, ci: t.Any):
+        self.ci = ci
+        self.attrs: dict[str, t.Any] = {}
+
+    @property
+    def kind(self) -> str:
+        return self.ci.name
+
+
+class _Rec:
+    """small immutable record (deliberately not a tuple: program values that are tuples must not be confused with it)."""
+
+    __slots__: tuple[str, ...] = ()
+
+    def __init__(self, *vals: t.Any):
+        for k, v in zip(self.__slots__, vals):
+            object.__setattr__(self, k, v)
+
+    def _key(self) -> tuple:
+        return tuple(id(x) if isinstance(x, (Obj, list, dict, set)) else x for x in (getattr(self, k) for k in self.__slots__))
+
+    def __eq__(self, other: object) -> bool:
+        return type(other) is type(self) and self._key() == other._key()  # type: ignore[attr-defined]
+
+    def __hash__(self) -> int:
+        return hash((type(self).__name__, self._key()))
+
+
+class Fn(_Rec):
+    __slots__ = ("fi", "selfv", "bound")  # bound: selfv is passed as the first argument
+
+    def __init__(self, fi: FuncInfo, selfv: t.Any = None, bound: bool = False):
+        super().__init__(fi, selfv, bound)
+
+
+class Cls(_Rec):
+    __slots__ = ("ci",)
+
+
+class ModRef(_Rec):
+    __slots__ = ("name",)
+
+
+class Ext(_Rec):
+    __slots__ = ("fq",)
+
+
+class Native(_Rec):
+    __slots__ = ("recv", "name")
+
+
+class SuperRef(_Rec):
+    __slots__ = ("obj", "after")
+
+
+class Closure:
+    def __init__(self, node: ast.AST, frame: "Frame"):
+        self.node = node
+        self.frame = frame
+
+
+class Frame:
+    __slots__ = ("env", "module", "limports", "parent", "fi", "is_comp", "outer_names")
+
+    def __init__(self, module: t.Any, limports: dict[str, str], parent: "Frame | None" = None, fi: FuncInfo | None = None, is_comp: bool = False):
+        self.env: dict[str, t.Any] = {}
+        self.module = module
+        self.limports = limports
+        self.parent = parent
+        self.fi = fi
+        self.is_comp = is_comp
+        self.outer_names: set[str] = set()
+
+    def find(self, name: str) -> "Frame | None":
+        f: Frame | None = self
+        while f is not None:
+            if name in f.env:
+                return f
+            f = f.parent
+        return None
+
+
+class _Ret(Exception):
+    def __init__(self, v: t.Any):
+        self.v = v
+
+
+class _Brk(Exception):
+    pass
+
+
+class _Cnt(Exception):
+    pass
+
+
+_NATIVE_TYPES = (str, bytes, bytearray, int, float, list, dict, tuple, set, frozenset, range, type({}.items()), type({}.keys()), type({}.values()))
+_MACHINE_OBJECTS = (Obj, Fn, Cls, ModRef, Ext, Native, SuperRef, Closure, ExcVal)
+_BIN = {
+    ast.Add: lambda a, b: a + b, ast.Sub: lambda a, b: a - b, ast.Mult: lambda a, b: a * b, ast.Div: lambda a, b: a / b, ast.FloorDiv: lambda a, b: a // b,
+    ast.Mod: lambda a, b: a % b, ast.Pow: lambda a, b: a**b, ast.BitOr: lambda a, b: a | b, ast.BitAnd: lambda a, b: a & b, ast.BitXor: lambda a, b: a ^ b,
+    ast.LShift: lambda a, b: a << b, ast.RShift: lambda a, b: a >> b,
+}  # fmt: skip
+_CMP = {
+    ast.Eq: lambda a, b: a == b, ast.NotEq: lambda a, b: a != b, ast.Lt: lambda a, b: a < b, ast.LtE: lambda a, b: a <= b, ast.Gt: lambda a, b: a > b,
+    ast.GtE: lambda a, b: a >= b, ast.In: lambda a, b: a in b, ast.NotIn: lambda a, b: a not in b,
+}  # fmt: skip
+
+
+def _stdlib_attr(fq: str) -> t.Any:
+    """the object a dotted name of builtins / the standard library denotes (never anything of the analysed package)."""
+    import importlib
+    import sys
+
+    if fq.startswith(("werkzeug", "?")):
+        raise NotModelled(f"name {fq} is not resolved")
+    parts = fq.split(".")
+    for i in range(len(parts), 0, -1):
+        mn = ".".join(parts[:i])
+        if parts[0] not in sys.stdlib_module_names:
+            break
+        try:
+            obj: t.Any = importlib.import_module(mn)
+        except ImportError:
+            continue
+        try:
+            for p in parts[i:]:
+                obj = getattr(obj, p)
+        except AttributeError:
+            break
+        return obj
+    raise NotModelled(f"name {fq} is not a builtin / standard library object")
+
+
+_EXT_PURE = {
+    "builtins.len", "builtins.int", "builtins.str", "builtins.bool", "builtins.float", "builtins.list", "builtins.tuple", "builtins.dict", "builtins.set",
+    "builtins.frozenset", "builtins.min", "builtins.max", "builtins.sorted", "builtins.abs", "builtins.any", "builtins.all", "builtins.sum", "builtins.repr",
+    "builtins.ord", "builtins.chr", "builtins.enumerate", "builtins.zip", "builtins.range", "builtins.reversed", "builtins.divmod", "builtins.round",
+    "builtins.bytes", "builtins.bytearray", "builtins.ascii", "builtins.format", "builtins.map", "builtins.filter", "builtins.iter", "builtins.next", "builtins.hex",
+    "urllib.parse.unquote", "urllib.parse.quote", "urllib.parse.unquote_to_bytes", "urllib.parse.unquote_plus", "urllib.parse.quote_plus",
+    "urllib.request.parse_http_list", "base64.b64encode", "base64.b64decode", "re.escape", "re.sub", "re.match", "re.fullmatch", "re.search", "re.split", "re.findall",
+    "operator.itemgetter", "itertools.chain", "itertools.islice",
+}  # fmt: skip
+_EAGER = {"builtins.enumerate", "builtins.zip", "builtins.reversed", "builtins.map", "builtins.filter", "itertools.chain", "itertools.islice"}
+
+
+class Machine:
+    def __init__(self, repo: Repo, folder: Folder, max_steps: int = 200_000):
+        self.repo = repo
+        self.folder = folder
+        self.max_steps = max_steps
+        self.steps = 0
+        self.depth = 0
+        self._rx: dict[tuple, t.Any] = {}
+        self._limports: dict[int, dict[str, str]] = {}
+        self._const: dict[str, t.Any] = {}
+        self._plain: dict[int, bool] = {}  # function node -> not a generator / coroutine, no foreign decorator
+        self._loads: dict[int, ast.AST] = {}
+        self._dispatch: dict[type, t.Any] = {}
+        self._class_attrs: dict[tuple[str, str], t.Any] = {}
+
+    # -- entry points -----------------------------------------------------
+    def run(self, f: t.Any, args: t.Sequence[t.Any] = (), kwargs: dict[str, t.Any] | None = None) -> t.Any:
+        """value of the call f(*args, **kwargs) (f: FuncInfo, ClassInfo or a Machine callable)."""
+        self.steps = 0
+        self.depth = 0
+        if isinstance(f, FuncInfo):
+            f = Fn(f, None)
+        elif not isinstance(f, _MACHINE_OBJECTS):
+            f = Cls(f)
+        return self.call(f, list(args), dict(kwargs or {}))
+
+    def method(self, obj: t.Any, name: str, args: t.Sequence[t.Any] = (), kwargs: dict[str, t.Any] | None = None) -> t.Any:
+        self.steps = 0
+        self.depth = 0
+        return self.call(self.getattr(obj, name), list(args), dict(kwargs or {}))
+
+    def outcome(self, thunk: t.Callable[[], t.Any]) -> t.Any:
+        """snapshot of the value, or a marker for `raises` / `does not finish`."""
+        try:
+            return snapshot(thunk())
+        except ProgramRaise as r:
+            return ("<raises>", r.kind)
+        except OutOfSteps:
+            return ("<no result>", f"not finished after {self.max_steps} steps")
+        except RecursionError:
+            raise NotModelled("evaluation nests too deeply")
+
+    # -- plumbing ---------------------------------------------------------
+    def tick(self) -> None:
+        self.steps += 1
+        if self.steps > self.max_steps:
+            raise OutOfSteps()
+
+    def raise_(self, pycls: type, *args: t.Any) -> t.NoReturn:
+        raise ProgramRaise(ExcVal(pycls, args))
+
+    def native(self, fn: t.Callable[..., t.Any], *args: t.Any, **kwargs: t.Any) -> t.Any:
+        """apply an operation of a builtin type / stdlib function: what it raises, the program raises."""
+        try:
+            return fn(*args, **kwargs)
+        except (ProgramRaise, OutOfSteps, AnalysisError, _Ret, _Brk, _Cnt):
+            raise
+        except RecursionError:
+            raise
+        except Exception as ex:
+            raise ProgramRaise(ExcVal(type(ex), ex.args))
+
+    def limports_of(self, fi: FuncInfo) -> dict[str, str]:
+        k = id(fi.node)
+        if k not in self._limports:
+            self._limports[k] = fi.module.local_imports(fi.node)
+        return self._limports[k]
+
+    def regex(self, rc: RegexConst) -> t.Any:
+        k = (rc.pattern, rc.flags)
+        if k not in self._rx:
+            self._rx[k] = re.compile(rc.pattern, rc.flags)
+        return self._rx[k]
+
+    def value_of_fq(self, fq: str) -> t.Any:
+        if not fq.startswith("werkzeug"):
+            return Ext(fq)
+        if fq in self._const:
+            return self._const[fq]
+        if fq in self.repo.modules:
+            return ModRef(fq)
+        fi = self.repo.try_func(fq)
+        if fi is not None:
+            return Fn(fi, None)
+        ci = self.repo.try_cls(fq)
+        if ci is not None:
+            return Cls(ci)
+        mn, _, nm = fq.rpartition(".")
+        mod = self.repo.modules.get(mn)
+        if mod is not None and nm in mod.assigns:
+            try:
+                v = self.folder.name(mod, nm)
+            except (Unfoldable, AnalysisError) as ex:
+                raise NotModelled(f"module constant {fq} is not folded: {ex}")
+            self._const[fq] = v
+            return v
+        raise NotModelled(f"name {fq} is not resolved")
+
+    def load_name(self, name: str, fr: Frame) -> t.Any:
+        f = fr.find(name)
+        if f is not None:
+            return f.env[name]
+        fq = self.repo.resolve(fr.module, name, fr.limports)
+        if fq is None:
+            raise NotModelled(f"name {name} is not resolved")
+        if fq.startswith("builtins.") and fq[9:] in ("True", "False", "None"):
+            return {"True": True, "False": False, "None": None}[fq[9:]]
+        return self.value_of_fq(fq)
+
+    # -- attributes -------------------------------------------------------
+    def class_member(self, ci: t.Any, name: str, after: str | None = None) -> tuple[t.Any, t.Any]:
+        return self.repo.lookup(ci, name, after)
+
+    def bind_member(self, owner: t.Any, what: t.Any, obj: t.Any, ci: t.Any, name: str) -> t.Any:
+        if isinstance(what, FuncInfo):
+            decs = what.decorators
+            if any(d.endswith("staticmethod") for d in decs):
+                return Fn(what, None)
+            if any(d.endswith("classmethod") for d in decs):
+                return Fn(what, Cls(ci), True)
+            if any(d.endswith(("property", "cached_property")) for d in decs):
+                if obj is None:
+                    raise NotModelled(f"property {what.fq} read on the class")
+                return self.call_fn(what, [obj], {})
+            if decs:
+                raise NotModelled(f"decorated method {what.fq}")
+            return Fn(what, obj, True) if obj is not None else Fn(what, None)
+        if what == "builtin":
+            raise NotModelled(f"inherited builtin member {name} of {ci.fq}")
+        v = self.class_attr(owner, what, name)
+        if isinstance(v, Obj):
+            _, getter = self.class_member(v.ci, "__get__")
+            if isinstance(getter, FuncInfo):
+                return self.call_fn(getter, [v, obj, Cls(ci)], {})
+            if getter is not None:
+                raise NotModelled(f"descriptor {ci.fq}.{name}")
+        return v
+
+    def class_attr(self, owner: t.Any, what: ast.AST, name: str) -> t.Any:
+        """value of a class-level assignment (evaluated once; a descriptor learns its name as at class creation)."""
+        k = (owner.fq, name)
+        if k not in self._class_attrs:
+            v = self.ev(what, Frame(owner.module, {}))
+            self._class_attrs[k] = v
+            if isinstance(v, Obj):
+                _, sn = self.class_member(v.ci, "__set_name__")
+                if isinstance(sn, FuncInfo):
+                    self.call_fn(sn, [v, Cls(owner), name], {})
+        return self._class_attrs[k]
+
+    def getattr(self, v: t.Any, name: str) -> t.Any:
+        if isinstance(v, Obj):
+            if name in v.attrs:
+                return v.attrs[name]
+            if name == "__dict__":
+                return v.attrs
+            if name == "__class__":
+                return Cls(v.ci)
+            owner, what = self.class_member(v.ci, name)
+            if what is None:
+                self.raise_(AttributeError, f"{v.ci.name!r} object has no attribute {name!r}")
+            return self.bind_member(owner, what, v, v.ci, name)
+        if isinstance(v, Cls):
+            if name == "__name__":
+                return v.ci.name
+            if name == "__qualname__":
+                return v.ci.qualname
+            owner, what = self.class_member(v.ci, name)
+            if what is None:
+                self.raise_(AttributeError, name)
+            return self.bind_member(owner, what, None, v.ci, name)
+        if isinstance(v, SuperRef):
+            owner, what = self.class_member(v.obj.ci, name, after=v.after)
+            if what is None or what == "builtin":
+                if name == "__init__":
+                    return Ext("<object.__init__>")
+                raise NotModelled(f"super().{name} is not defined in the package")
+            return self.bind_member(owner, what, v.obj, v.obj.ci, name)
+        if isinstance(v, ModRef):
+            return self.value_of_fq(self.repo.canonical(f"{v.name}.{name}"))
+        if isinstance(v, Ext):
+            return Ext(self.repo.canonical(f"{v.fq}.{name}"))
+        if isinstance(v, ExcVal):
+            if name == "args":
+                return v.args
+            return Native(v, name)
+        if isinstance(v, (RegexConst, re.Match)) or isinstance(v, _NATIVE_TYPES) or v is None:
+            if name.startswith("_"):
+                raise NotModelled(f"attribute {name} of a {type(v).__name__}")
+            if isinstance(v, re.Match) and name in ("string", "pos", "endpos", "lastindex", "lastgroup"):
+                return getattr(v, name)
+            if isinstance(v, RegexConst):
+                if name in ("pattern", "flags"):
+                    return getattr(v, name)
+                if not hasattr(re.Pattern, name):
+                    self.raise_(AttributeError, name)
+                return Native(v, name)
+            if not hasattr(v, name):
+                self.raise_(AttributeError, f"{type(v).__name__!r} object has no attribute {name!r}")
+            if isinstance(v, (int, float)) and name in ("real", "imag", "numerator", "denominator"):
+                return getattr(v, name)
+            return Native(v, name)
+        raise NotModelled(f"attribute {name} of {type(v).__name__}")
+
+    def setattr(self, v: t.Any, name: str, val: t.Any) -> None:
+        if not isinstance(v, Obj):
+            raise NotModelled(f"attribute store on {type(v).__name__}")
+        owner, what = self.class_member(v.ci, name)
+        if isinstance(what, FuncInfo) and any(d.endswith("property") for d in what.decorators):
+            _, setter = self.class_member(v.ci, f"{name}.setter")
+            if not isinstance(setter, FuncInfo):
+                self.raise_(AttributeError, f"property {name!r} has no setter")
+            self.call_fn(setter, [v, val], {})
+            return
+        if what is not None and not isinstance(what, (FuncInfo, str)) and isinstance(what, ast.Call):
+            d = self.class_attr(owner, what, name)
+            if isinstance(d, Obj):
+                _, setter = self.class_member(d.ci, "__set__")
+                if isinstance(setter, FuncInfo):
+                    self.call_fn(setter, [d, v, val], {})
+                    return
+                if setter is not None:
+                    raise NotModelled(f"descriptor {v.ci.fq}.{name}")
+        v.attrs[name] = val
+
+    # -- calls ------------------------------------------------------------
+    def pyfunc(self, v: t.Any) -> t.Any:
+        """a Machine callable as a Python callable (key= of sorted, function of map ...)."""
+        if isinstance(v, (Fn, Closure, Cls, Native, Ext)):
+            return lambda *a, **k: self.call(v, list(a), k)
+        return v
+
+    def call(self, f: t.Any, args: list[t.Any], kwargs: dict[str, t.Any]) -> t.Any:
+        self.tick()
+        if isinstance(f, Fn):
+            return self.call_fn(f.fi, ([f.selfv] if f.bound else []) + args, kwargs)
+        if isinstance(f, Closure):
+            return self.call_closure(f, args, kwargs)
+        if isinstance(f, Cls):
+            return self.instantiate(f.ci, args, kwargs)
+        if isinstance(f, Native):
+            return self.call_native(f, args, kwargs)
+        if isinstance(f, Ext):
+            return self.call_ext(f.fq, args, kwargs)
+        if isinstance(f, Obj):
+            _, what = self.class_member(f.ci, "__call__")
+            if isinstance(what, FuncInfo):
+                return self.call_fn(what, [f] + args, kwargs)
+        raise NotModelled(f"call of a {type(f).__name__}")
+
+    def call_native(self, f: Native, args: list[t.Any], kwargs: dict[str, t.Any]) -> t.Any:
+        recv = f.recv
+        args = [self.pyfunc(a) for a in args]
+        kwargs = {k: self.pyfunc(v) for k, v in kwargs.items()}
+        if isinstance(recv, RegexConst):
+            rx = self.regex(recv)
+            r = self.native(getattr(rx, f.name), *args, **kwargs)
+            return list(r) if f.name == "finditer" else r
+        if isinstance(recv, ExcVal):
+            raise NotModelled(f"method {f.name} of an exception")
+        for a in list(args) + list(kwargs.values()):
+            if isinstance(a, (Obj, ExcVal, ModRef, SuperRef)) and not (isinstance(recv, (list, dict, set)) and f.name in ("append", "add", "insert", "setdefault", "get", "pop", "remove", "index", "count", "extend", "update", "discard")):
+                raise NotModelled(f"{type(recv).__name__}.{f.name} applied to an instance")
+        if isinstance(recv, str) and f.name in ("format", "format_map"):
+            for a in list(args) + list(kwargs.values()):
+                if not isinstance(a, (str, int, float, type(None), bool)):
+                    raise NotModelled("str.format of a structured value")
+        return self.native(getattr(recv, f.name), *args, **kwargs)
+
+    def call_ext(self, fq: str, args: list[t.Any], kwargs: dict[str, t.Any]) -> t.Any:
+        if fq == "<object.__init__>":
+            return None
+        if fq in ("typing.cast", "t.cast") and len(args) == 2:
+            return args[1]
+        if fq == "builtins.isinstance" and len(args) == 2:
+            return self.isinstance(args[0], args[1])
+        if fq == "builtins.callable" and len(args) == 1:
+            return isinstance(args[0], (Fn, Closure, Cls, Native, Ext))
+        if fq == "builtins.type" and len(args) == 1:
+            v = args[0]
+            if isinstance(v, Obj):
+                return Cls(v.ci)
+            if isinstance(v, _NATIVE_TYPES) or v is None:
+                return Ext(f"builtins.{type(v).__name__}")
+            raise NotModelled("type() of a Machine object")
+        if fq in ("builtins.getattr", "builtins.hasattr") and len(args) >= 2 and isinstance(args[1], str):
+            try:
+                v = self.getattr(args[0], args[1])
+            except ProgramRaise as r:
+                if r.kind != "AttributeError":
+                    raise
+                if fq == "builtins.hasattr":
+                    return False
+                if len(args) == 3:
+                    return args[2]
+                raise
+            return True if fq == "builtins.hasattr" else v
+        if fq == "builtins.setattr" and len(args) == 3 and isinstance(args[1], str):
+            self.setattr(args[0], args[1], args[2])
+            return None
+        if fq == "builtins.super":
+            raise NotModelled("super() outside a method body")
+        if fq == "builtins.str" and len(args) == 1 and not kwargs:
+            return self.to_str(args[0])
+        if fq == "builtins.repr" and len(args) == 1:
+            return self.to_repr(args[0])
+        if fq == "builtins.bool" and len(args) == 1:
+            return self.truth(args[0])
+        if fq == "re.compile":
+            if args and isinstance(args[0], (str, bytes)):
+                flags = args[1] if len(args) > 1 else kwargs.get("flags", 0)
+                return RegexConst(args[0], int(flags))
+            raise NotModelled("re.compile of a non-constant")
+        target = _stdlib_attr(fq)
+        if isinstance(target, type) and issubclass(target, BaseException):
+            return ExcVal(target, tuple(args))
+        unbound = fq.startswith("builtins.") and fq.count(".") == 2 and fq.split(".")[1] in ("str", "bytes", "int", "list", "dict", "tuple", "set", "frozenset") and not fq.rsplit(".", 1)[1].startswith("_")
+        if fq not in _EXT_PURE and not unbound:
+            raise NotModelled(f"call of {fq}")
+        for a in list(args) + list(kwargs.values()):
+            if isinstance(a, (Obj, ExcVal, ModRef, SuperRef)):
+                raise NotModelled(f"{fq} applied to an instance")
+            if fq in ("builtins.str", "builtins.repr", "builtins.format", "builtins.ascii") and isinstance(a, (list, tuple, dict, set, frozenset)) and _has_machine_object(a):
+                raise NotModelled(f"{fq} of a structure holding instances")
+        args = [self.pyfunc(a) for a in args]
+        kwargs = {k: self.pyfunc(v) for k, v in kwargs.items()}
+        r = self.native(target, *args, **kwargs)
+        if fq in _EAGER:
+            r = self.native(list, r)
+        return r
+
+    def isinstance(self, v: t.Any, c: t.Any) -> bool:
+        if isinstance(c, tuple):
+            return any(self.isinstance(v, x) for x in c)
+        if isinstance(c, Cls):
+            if isinstance(v, Obj):
+                return any(k.fq == c.ci.fq for k in self.repo.mro(v.ci))
+            if isinstance(v, _MACHINE_OBJECTS):
+                raise NotModelled("isinstance of a Machine object")
+            return False
+        if isinstance(c, Ext):
+            target = _stdlib_attr(c.fq)
+            if not isinstance(target, type):
+                raise NotModelled(f"isinstance(.., {c.fq})")
+            if isinstance(v, Obj):
+                return any(k.fq == c.fq for k in self.repo.mro(v.ci)) or target is object
+            if isinstance(v, ExcVal):
+                return issubclass(v.pycls, target)
+            if isinstance(v, _MACHINE_OBJECTS):
+                raise NotModelled("isinstance of a Machine object")
+            return isinstance(v, target)
+        raise NotModelled("isinstance with a class that is not resolved")
+
+    def instantiate(self, ci: t.Any, args: list[t.Any], kwargs: dict[str, t.Any]) -> t.Any:
+        if ci.node.decorator_list:
+            raise NotModelled(f"decorated class {ci.fq}")
+        mro = self.repo.mro(ci)
+        foreign = [k.fq for k in mro if not hasattr(k, "node") and k.fq not in ("builtins.object", "typing.Generic")]
+        is_exc = any(fq in ("builtins.Exception", "builtins.BaseException") for fq in foreign)
+        if foreign and not is_exc:
+            raise NotModelled(f"class {ci.fq} derives from {foreign[0]}")
+        if isinstance(self.class_member(ci, "__new__")[1], FuncInfo):
+            raise NotModelled(f"class {ci.fq} defines __new__")
+        obj = Obj(ci)
+        _, init = self.class_member(ci, "__init__")
+        if isinstance(init, FuncInfo):
+            self.call_fn(init, [obj] + args, kwargs)
+        elif is_exc:
+            obj.attrs["args"] = tuple(args)
+        elif args or kwargs:
+            self.raise_(TypeError, f"{ci.name}() takes no arguments")
+        return obj
+
+    def bind(self, node: t.Any, args: list[t.Any], kwargs: dict[str, t.Any], fr: Frame, def_frame: Frame, name: str) -> None:
+        a = node.args
+        pos = a.posonlyargs + a.args
+        env = fr.env
+        if len(args) > len(pos) and not a.vararg:
+            self.raise_(TypeError, f"{name}() takes {len(pos)} positional arguments but {len(args)} were given")
+        for p, v in zip(pos, args):
+            env[p.arg] = v
+        if a.vararg:
+            env[a.vararg.arg] = tuple(args[len(pos) :])
+        named = {p.arg for p in a.args + a.kwonlyargs}
+        extra: dict[str, t.Any] = {}
+        for k, v in kwargs.items():
+            if k in named:
+                if k in env:
+                    self.raise_(TypeError, f"{name}() got multiple values for argument {k!r}")
+                env[k] = v
+            elif a.kwarg:
+                extra[k] = v
+            else:
+                self.raise_(TypeError, f"{name}() got an unexpected keyword argument {k!r}")
+        if a.kwarg:
+            env[a.kwarg.arg] = extra
+        for p, d in zip(pos[len(pos) - len(a.defaults) :], a.defaults):
+            if p.arg not in env:
+                env[p.arg] = self.ev(d, def_frame)
+        for p, d in zip(a.kwonlyargs, a.kw_defaults):
+            if p.arg not in env and d is not None:
+                env[p.arg] = self.ev(d, def_frame)
+        for p in pos + a.kwonlyargs:
+            if p.arg not in env:
+                self.raise_(TypeError, f"{name}() missing a required argument: {p.arg!r}")
+
+    def enter(self) -> None:
+        self.depth += 1
+        if self.depth > 60:
+            self.depth -= 1
+            raise NotModelled("evaluation nests too deeply")
+
+    def call_fn(self, fi: FuncInfo, args: list[t.Any], kwargs: dict[str, t.Any]) -> t.Any:
+        node = fi.node
+        if id(node) not in self._plain:
+            if isinstance(node, ast.AsyncFunctionDef) or any(isinstance(n, (ast.Yield, ast.YieldFrom, ast.Await)) for n in walk_no_nested_ast(node)):
+                raise NotModelled(f"{fi.fq} is a generator / coroutine")
+            other = [d for d in fi.decorators if not d.endswith(("staticmethod", "classmethod", "property", "cached_property", ".setter"))]
+            if other:
+                raise NotModelled(f"{fi.fq} is decorated with {other[0]}")
+            self._plain[id(node)] = True
+        fr = Frame(fi.module, self.limports_of(fi), None, fi)
+        self.bind(node, args, kwargs, fr, Frame(fi.module, {}), fi.name)
+        self.enter()
+        try:
+            self.block(node.body, fr)  # type: ignore[attr-defined]
+        except _Ret as r:
+            return r.v
+        finally:
+            self.depth -= 1
+        return None
+
+    def call_closure(self, c: Closure, args: list[t.Any], kwargs: dict[str, t.Any]) -> t.Any:
+        node = c.node
+        if id(node) not in self._plain:
+            if not isinstance(node, ast.Lambda) and any(isinstance(n, (ast.Yield, ast.YieldFrom, ast.Await)) for n in walk_no_nested_ast(node)):
+                raise NotModelled("nested generator")
+            self._plain[id(node)] = True
+        fr = Frame(c.frame.module, c.frame.limports, c.frame, c.frame.fi)
+        self.bind(node, args, kwargs, fr, c.frame, getattr(node, "name", "<lambda>"))
+        self.enter()
+        try:
+            if isinstance(node, ast.Lambda):
+                return self.ev(node.body, fr)
+            self.block(node.body, fr)  # type: ignore[attr-defined]
+        except _Ret as r:
+            return r.v
+        finally:
+            self.depth -= 1
+        return None
+
+    # -- conversions ------------------------------------------------------
+    def truth(self, v: t.Any) -> bool:
+        if isinstance(v, Obj):
+            for nm in ("__bool__", "__len__"):
+                _, what = self.class_member(v.ci, nm)
+                if isinstance(what, FuncInfo):
+                    return bool(self.call_fn(what, [v], {}))
+                if what == "builtin":
+                    raise NotModelled(f"truth of a {v.ci.fq}")
+            return True
+        if isinstance(v, (Fn, Cls, ModRef, Ext, Native, Closure, ExcVal, RegexConst)):
+            return True
+        return bool(v)
+
+    def to_str(self, v: t.Any) -> str:
+        if isinstance(v, Obj):
+            for nm in ("__str__", "__repr__"):
+                _, what = self.class_member(v.ci, nm)
+                if isinstance(what, FuncInfo):
+                    return self.call_fn(what, [v], {})
+            raise NotModelled(f"str() of a {v.ci.fq}")
+        if isinstance(v, ExcVal):
+            return str(v.args[0]) if len(v.args) == 1 else str(v.args) if v.args else ""
+        if isinstance(v, _MACHINE_OBJECTS) or isinstance(v, RegexConst) or _has_machine_object(v):
+            raise NotModelled(f"str() of a {type(v).__name__}")
+        return self.native(str, v)
+
+    def to_repr(self, v: t.Any) -> str:
+        if isinstance(v, Obj):
+            _, what = self.class_member(v.ci, "__repr__")
+            if isinstance(what, FuncInfo):
+                return self.call_fn(what, [v], {})
+            raise NotModelled(f"repr() of a {v.ci.fq}")
+        if isinstance(v, _MACHINE_OBJECTS) or isinstance(v, RegexConst) or _has_machine_object(v):
+            raise NotModelled(f"repr() of a {type(v).__name__}")
+        return repr(v)
+
+    def iterate(self, v: t.Any) -> t.Iterable[t.Any]:
+        if isinstance(v, Obj):
+            _, what = self.class_member(v.ci, "__iter__")
+            if isinstance(what, FuncInfo):
+                return self.iterate(self.call_fn(what, [v], {}))
+            raise NotModelled(f"iteration over a {v.ci.fq}")
+        if isinstance(v, _MACHINE_OBJECTS) or isinstance(v, RegexConst):
+            raise NotModelled(f"iteration over a {type(v).__name__}")
+        if isinstance(v, (dict, set)):
+            return list(v)  # the body may change the container: Python would raise; a snapshot is enough here
+        return self.native(iter, v)
+
+    # -- statements -------------------------------------------------------
+    def block(self, stmts: list[ast.stmt], fr: Frame) -> None:
+        for s in stmts:
+            self.stmt(s, fr)
+
+    def stmt(self, s: ast.stmt, fr: Frame) -> None:
+        self.tick()
+        if isinstance(s, ast.Expr):
+            self.ev(s.value, fr)
+        elif isinstance(s, ast.Assign):
+            v = self.ev(s.value, fr)
+            for tg in s.targets:
+                self.assign(tg, v, fr)
+        elif isinstance(s, ast.AnnAssign):
+            if s.value is not None:
+                self.assign(s.target, self.ev(s.value, fr), fr)
+        elif isinstance(s, ast.AugAssign):
+            load = self._loads.get(id(s))
+            if load is None:
+                load = self._loads[id(s)] = _as_load(s.target)
+            cur = self.ev(load, fr)
+            v = self.ev(s.value, fr)
+            if isinstance(cur, list) and isinstance(s.op, ast.Add):
+                self.native(cur.extend, self.iterate(v))
+                r: t.Any = cur
+            else:
+                r = self.binop(s.op, cur, v)
+            self.assign(s.target, r, fr)
+        elif isinstance(s, ast.Return):
+            raise _Ret(self.ev(s.value, fr) if s.value is not None else None)
+        elif isinstance(s, ast.Raise):
+            if s.exc is None:
+                cur = fr.find("<exc>")
+                if cur is None:
+                    self.raise_(RuntimeError, "No active exception to reraise")
+                raise ProgramRaise(cur.env["<exc>"])
+            v = self.ev(s.exc, fr)
+            if isinstance(v, (Ext, Cls)):
+                v = self.call(v, [], {})
+            if not isinstance(v, (ExcVal, Obj)):
+                raise NotModelled("raise of a value that is not an exception")
+            raise ProgramRaise(v)
+        elif isinstance(s, ast.If):
+            self.block(s.body if self.truth(self.ev(s.test, fr)) else s.orelse, fr)
+        elif isinstance(s, ast.For):
+            broke = False
+            for el in self.iterate(self.ev(s.iter, fr)):
+                self.tick()
+                self.assign(s.target, el, fr)
+                try:
+                    self.block(s.body, fr)
+                except _Brk:
+                    broke = True
+                    break
+                except _Cnt:
+                    continue
+            if not broke:
+                self.block(s.orelse, fr)
+        elif isinstance(s, ast.While):
+            broke = False
+            while self.truth(self.ev(s.test, fr)):
+                self.tick()
+                try:
+                    self.block(s.body, fr)
+                except _Brk:
+                    broke = True
+                    break
+                except _Cnt:
+                    continue
+            if not broke:
+                self.block(s.orelse, fr)
+        elif isinstance(s, ast.Try):
+            self.try_(s, fr)
+        elif isinstance(s, ast.Break):
+            raise _Brk()
+        elif isinstance(s, ast.Continue):
+            raise _Cnt()
+        elif isinstance(s, ast.Assert):
+            if not self.truth(self.ev(s.test, fr)):
+                self.raise_(AssertionError, *([self.ev(s.msg, fr)] if s.msg is not None else []))
+        elif isinstance(s, ast.FunctionDef):
+            if s.decorator_list:
+                raise NotModelled(f"decorated nested function {s.name}")
+            fr.env[s.name] = Closure(s, fr)
+        elif isinstance(s, (ast.Pass, ast.Import, ast.ImportFrom)):
+            pass
+        elif isinstance(s, ast.Nonlocal):
+            fr.outer_names.update(s.names)
+        elif isinstance(s, ast.Delete):
+            for tg in s.targets:
+                if isinstance(tg, ast.Name):
+                    f = fr.find(tg.id)
+                    if f is None:
+                        self.raise_(NameError, tg.id)
+                    del f.env[tg.id]
+                elif isinstance(tg, ast.Subscript):
+                    base = self.ev(tg.value, fr)
+                    ix = self.index(tg.slice, fr)
+                    if not isinstance(base, (list, dict)):
+                        raise NotModelled("del on a value that is not a list / dict")
+                    self.native(base.__delitem__, ix)
+                else:
+                    raise NotModelled("del of an attribute")
+        else:
+            raise NotModelled(f"statement {type(s).__name__}")
+
+    def try_(self, s: ast.Try, fr: Frame) -> None:
+        try:
+            try:
+                self.block(s.body, fr)
+            except ProgramRaise as r:
+                for h in s.handlers:
+                    if h.type is None or self.exc_matches(r.value, self.ev(h.type, fr)):
+                        saved = fr.env.get("<exc>", _MISSING_EXC)
+                        fr.env["<exc>"] = r.value
+                        if h.name:
+                            fr.env[h.name] = r.value
+                        try:
+                            self.block(h.body, fr)
+                        finally:
+                            if saved is _MISSING_EXC:
+                                fr.env.pop("<exc>", None)
+                            else:
+                                fr.env["<exc>"] = saved
+                            if h.name:
+                                fr.env.pop(h.name, None)
+                        break
+                else:
+                    raise
+            else:
+                self.block(s.orelse, fr)
+        finally:
+            if s.finalbody:
+                self.block(s.finalbody, fr)
+
+    def exc_matches(self, raised: t.Any, handler: t.Any) -> bool:
+        if isinstance(handler, tuple):
+            return any(self.exc_matches(raised, h) for h in handler)
+        if isinstance(handler, Ext):
+            target = _stdlib_attr(handler.fq)
+            if not (isinstance(target, type) and issubclass(target, BaseException)):
+                raise NotModelled(f"except {handler.fq}")
+            if isinstance(raised, ExcVal):
+                return issubclass(raised.pycls, target)
+            fqs = [k.fq for k in self.repo.mro(raised.ci)]
+            return handler.fq in fqs or target in (Exception, BaseException) or any(fq.startswith("builtins.") and isinstance(getattr(__import__("builtins"), fq[9:], None), type) and issubclass(getattr(__import__("builtins"), fq[9:]), target) for fq in fqs)
+        if isinstance(handler, Cls):
+            if isinstance(raised, ExcVal):
+                return False
+            return any(k.fq == handler.ci.fq for k in self.repo.mro(raised.ci))
+        raise NotModelled("except clause with a class that is not resolved")
+
+    def assign(self, tg: ast.AST, v: t.Any, fr: Frame) -> None:
+        if isinstance(tg, ast.Name):
+            if tg.id in fr.outer_names and fr.parent is not None:
+                f = fr.parent.find(tg.id)
+                if f is None:
+                    raise NotModelled(f"nonlocal {tg.id} is not bound")
+                f.env[tg.id] = v
+            else:
+                fr.env[tg.id] = v
+        elif isinstance(tg, (ast.Tuple, ast.List)):
+            vals = self.native(list, self.iterate(v))
+            stars = [i for i, e in enumerate(tg.elts) if isinstance(e, ast.Starred)]
+            if not stars:
+                if len(vals) != len(tg.elts):
+                    self.raise_(ValueError, f"expected {len(tg.elts)} values to unpack, got {len(vals)}")
+                for e, x in zip(tg.elts, vals):
+                    self.assign(e, x, fr)
+            else:
+                i = stars[0]
+                after = len(tg.elts) - i - 1
+                if len(stars) > 1 or len(vals) < len(tg.elts) - 1:
+                    self.raise_(ValueError, "not enough values to unpack")
+                for e, x in zip(tg.elts[:i], vals[:i]):
+                    self.assign(e, x, fr)
+                self.assign(tg.elts[i].value, vals[i : len(vals) - after], fr)  # type: ignore[attr-defined]
+                for e, x in zip(tg.elts[i + 1 :], vals[len(vals) - after :]):
+                    self.assign(e, x, fr)
+        elif isinstance(tg, ast.Subscript):
+            base = self.ev(tg.value, fr)
+            ix = self.index(tg.slice, fr)
+            if not isinstance(base, (list, dict, bytearray)):
+                raise NotModelled(f"item store on a {type(base).__name__}")
+            self.native(base.__setitem__, ix, v)
+        elif isinstance(tg, ast.Attribute):
+            self.setattr(self.ev(tg.value, fr), tg.attr, v)
+        else:
+            raise NotModelled(f"assignment target {type(tg).__name__}")
+
+    # -- expressions ------------------------------------------------------
+    def binop(self, op: ast.operator, a: t.Any, b: t.Any) -> t.Any:
+        fn = _BIN.get(type(op))
+        if fn is None:
+            raise NotModelled(f"operator {type(op).__name__}")
+        for x in (a, b):
+            if isinstance(x, _MACHINE_OBJECTS) or isinstance(x, RegexConst):
+                raise NotModelled(f"operator {type(op).__name__} on a {type(x).__name__}")
+        if isinstance(op, ast.Mod) and isinstance(a, (str, bytes)) and _has_machine_object(b):
+            raise NotModelled("%-formatting of an instance")
+        if isinstance(op, (ast.Pow, ast.LShift, ast.Mult)) and isinstance(b, int) and not isinstance(a, (str, bytes, list, tuple)) and abs(b) > 4096:
+            raise NotModelled("large arithmetic")
+        if isinstance(op, ast.Mult) and ((isinstance(a, (str, bytes, list, tuple)) and isinstance(b, int) and b > 100_000) or (isinstance(b, (str, bytes, list, tuple)) and isinstance(a, int) and a > 100_000)):
+            raise NotModelled("large repetition")
+        return self.native(fn, a, b)
+
+    def index(self, sl: ast.AST, fr: Frame) -> t.Any:
+        if isinstance(sl, ast.Slice):
+            return slice(*(self.ev(p, fr) if p is not None else None for p in (sl.lower, sl.upper, sl.step)))
+        return self.ev(sl, fr)
+
+    def compare(self, op: ast.cmpop, a: t.Any, b: t.Any) -> bool:
+        if isinstance(op, (ast.Is, ast.IsNot)):
+            if isinstance(a, Obj) or isinstance(b, Obj) or a is None or b is None or isinstance(a, bool) or isinstance(b, bool):
+                same = a is b
+            elif isinstance(a, _MACHINE_OBJECTS) or isinstance(b, _MACHINE_OBJECTS):
+                same = a == b
+            else:
+                same = a is b or (type(a) is type(b) and isinstance(a, (int, str, bytes)) and a == b)
+            return same if isinstance(op, ast.Is) else not same
+        if isinstance(a, Obj) or isinstance(b, Obj):
+            if isinstance(op, (ast.Eq, ast.NotEq)):
+                for x, y in ((a, b), (b, a)):
+                    if isinstance(x, Obj):
+                        _, what = self.class_member(x.ci, "__eq__")
+                        if isinstance(what, FuncInfo):
+                            raise NotModelled(f"{x.ci.fq}.__eq__")
+                same = a is b
+                return same if isinstance(op, ast.Eq) else not same
+            if isinstance(op, (ast.In, ast.NotIn)) and isinstance(b, (list, tuple, set, frozenset, dict)):
+                return self.native(_CMP[type(op)], a, b)
+            raise NotModelled("comparison of an instance")
+        return bool(self.native(_CMP[type(op)], a, b))
+
+    def ev(self, e: ast.AST, fr: Frame) -> t.Any:
+        self.steps += 1
+        if self.steps > self.max_steps:
+            raise OutOfSteps()
+        m = self._dispatch.get(type(e))
+        if m is None:
+            m = getattr(self, "x_" + type(e).__name__, None)
+            if m is None:
+                raise NotModelled(f"expression {type(e).__name__}")
+            self._dispatch[type(e)] = m
+        return m(e, fr)
+
+    def x_Constant(self, e: ast.Constant, fr: Frame) -> t.Any:  # noqa: N802
+        return e.value
+
+    def x_Name(self, e: ast.Name, fr: Frame) -> t.Any:  # noqa: N802
+        return self.load_name(e.id, fr)
+
+    def x_Attribute(self, e: ast.Attribute, fr: Frame) -> t.Any:  # noqa: N802
+        return self.getattr(self.ev(e.value, fr), e.attr)
+
+    def x_JoinedStr(self, e: ast.JoinedStr, fr: Frame) -> t.Any:  # noqa: N802
+        return "".join(self.ev(v, fr) for v in e.values)
+
+    def x_FormattedValue(self, e: ast.FormattedValue, fr: Frame) -> t.Any:  # noqa: N802
+        v = self.ev(e.value, fr)
+        if e.conversion == 114:
+            v = self.to_repr(v)
+        elif e.conversion == 115:
+            v = self.to_str(v)
+        elif e.conversion == 97:
+            v = ascii(self.to_repr(v))[1:-1]
+        if e.format_spec is not None:
+            spec = self.ev(e.format_spec, fr)
+            if isinstance(v, _MACHINE_OBJECTS):
+                raise NotModelled("format spec applied to an instance")
+            return self.native(format, v, spec)
+        return self.to_str(v)
+
+    def x_BinOp(self, e: ast.BinOp, fr: Frame) -> t.Any:  # noqa: N802
+        return self.binop(e.op, self.ev(e.left, fr), self.ev(e.right, fr))
+
+    def x_UnaryOp(self, e: ast.UnaryOp, fr: Frame) -> t.Any:  # noqa: N802
+        v = self.ev(e.operand, fr)
+        if isinstance(e.op, ast.Not):
+            return not self.truth(v)
+        if isinstance(v, _MACHINE_OBJECTS):
+            raise NotModelled("unary operator on an instance")
+        if isinstance(e.op, ast.USub):
+            return self.native(lambda x: -x, v)
+        if isinstance(e.op, ast.UAdd):
+            return self.native(lambda x: +x, v)
+        return self.native(lambda x: ~x, v)
+
+    def x_BoolOp(self, e: ast.BoolOp, fr: Frame) -> t.Any:  # noqa: N802
+        is_or = isinstance(e.op, ast.Or)
+        v: t.Any = None
+        for x in e.values:
+            v = self.ev(x, fr)
+            if self.truth(v) == is_or:
+                return v
+        return v
+
+    def x_Compare(self, e: ast.Compare, fr: Frame) -> t.Any:  # noqa: N802
+        left = self.ev(e.left, fr)
+        for op, c in zip(e.ops, e.comparators):
+            right = self.ev(c, fr)
+            if not self.compare(op, left, right):
+                return False
+            left = right
+        return True
+
+    def x_IfExp(self, e: ast.IfExp, fr: Frame) -> t.Any:  # noqa: N802
+        return self.ev(e.body if self.truth(self.ev(e.test, fr)) else e.orelse, fr)
+
+    def x_NamedExpr(self, e: ast.NamedExpr, fr: Frame) -> t.Any:  # noqa: N802
+        v = self.ev(e.value, fr)
+        f = fr
+        while f.is_comp and f.parent is not None:
+            f = f.parent
+        f.env[e.target.id] = v
+        return v
+
+    def seq(self, elts: list[ast.expr], fr: Frame) -> list[t.Any]:
+        out: list[t.Any] = []
+        for x in elts:
+            if isinstance(x, ast.Starred):
+                out.extend(self.iterate(self.ev(x.value, fr)))
+            else:
+                out.append(self.ev(x, fr))
+        return out
+
+    def x_Tuple(self, e: ast.Tuple, fr: Frame) -> t.Any:  # noqa: N802
+        return tuple(self.seq(e.elts, fr))
+
+    def x_List(self, e: ast.List, fr: Frame) -> t.Any:  # noqa: N802
+        return self.seq(e.elts, fr)
+
+    def x_Set(self, e: ast.Set, fr: Frame) -> t.Any:  # noqa: N802
+        return self.native(set, self.seq(e.elts, fr))
+
+    def x_Dict(self, e: ast.Dict, fr: Frame) -> t.Any:  # noqa: N802
+        out: dict[t.Any, t.Any] = {}
+        for k, v in zip(e.keys, e.values):
+            if k is None:
+                d = self.ev(v, fr)
+                if not isinstance(d, dict):
+                    raise NotModelled("** of a value that is not a dict")
+                out.update(d)
+            else:
+                kk = self.ev(k, fr)
+                self.native(out.__setitem__, kk, self.ev(v, fr))
+        return out
+
+    def comp(self, gens: list[ast.comprehension], fr: Frame, emit: t.Callable[[Frame], None]) -> None:
+        cf = Frame(fr.module, fr.limports, fr, fr.fi, True)
+
+        def rec(i: int) -> None:
+            if i == len(gens):
+                emit(cf)
+                return
+            g = gens[i]
+            if g.is_async:
+                raise NotModelled("async comprehension")
+            for el in self.iterate(self.ev(g.iter, cf)):
+                self.tick()
+                self.assign(g.target, el, cf)
+                if all(self.truth(self.ev(c, cf)) for c in g.ifs):
+                    rec(i + 1)
+
+        rec(0)
+
+    def x_ListComp(self, e: ast.ListComp, fr: Frame) -> t.Any:  # noqa: N802
+        out: list[t.Any] = []
+        self.comp(e.generators, fr, lambda cf: out.append(self.ev(e.elt, cf)))
+        return out
+
+    x_GeneratorExp = x_ListComp  # noqa: N815  (evaluated eagerly: the fragment has no side effects that could tell)
+
+    def x_SetComp(self, e: ast.SetComp, fr: Frame) -> t.Any:  # noqa: N802
+        out: list[t.Any] = []
+        self.comp(e.generators, fr, lambda cf: out.append(self.ev(e.elt, cf)))
+        return self.native(set, out)
+
+    def x_DictComp(self, e: ast.DictComp, fr: Frame) -> t.Any:  # noqa: N802
+        out: dict[t.Any, t.Any] = {}
+
+        def emit(cf: Frame) -> None:
+            k = self.ev(e.key, cf)
+            self.native(out.__setitem__, k, self.ev(e.value, cf))
+
+        self.comp(e.generators, fr, emit)
+        return out
+
+    def x_Subscript(self, e: ast.Subscript, fr: Frame) -> t.Any:  # noqa: N802
+        base = self.ev(e.value, fr)
+        ix = self.index(e.slice, fr)
+        if isinstance(base, Obj):
+            _, what = self.class_member(base.ci, "__getitem__")
+            if isinstance(what, FuncInfo):
+                return self.call_fn(what, [base, ix], {})
+            raise NotModelled(f"subscript of a {base.ci.fq}")
+        if isinstance(base, _MACHINE_OBJECTS) or isinstance(base, RegexConst):
+            raise NotModelled(f"subscript of a {type(base).__name__}")
+        return self.native(lambda b, i: b[i], base, ix)
+
+    def x_Lambda(self, e: ast.Lambda, fr: Frame) -> t.Any:  # noqa: N802
+        return Closure(e, fr)
+
+    def x_Call(self, e: ast.Call, fr: Frame) -> t.Any:  # noqa: N802
+        if isinstance(e.func, ast.Name) and e.func.id == "super" and not e.args and fr.find("super") is None:
+            f: Frame | None = fr
+            while f is not None and f.is_comp:
+                f = f.parent
+            fi = f.fi if f is not None else None
+            if fi is None or fi.cls is None or not fi.params:
+                raise NotModelled("super() outside a method")
+            owner = f.find(fi.params[0])  # type: ignore[union-attr]
+            if owner is None:
+                raise NotModelled("super() without a receiver")
+            return SuperRef(owner.env[fi.params[0]], fi.cls.fq)
+        fv = self.ev(e.func, fr)
+        args = self.seq(e.args, fr)
+        kwargs: dict[str, t.Any] = {}
+        for k in e.keywords:
+            v = self.ev(k.value, fr)
+            if k.arg is None:
+                if not isinstance(v, dict):
+                    raise NotModelled("** of a value that is not a dict")
+                kwargs.update(v)
+            else:
+                kwargs[k.arg] = v
+        return self.call(fv, args, kwargs)
+
+
+_MISSING_EXC = object()
+
+
+def _has_machine_object(v: t.Any, depth: int = 0) -> bool:
+    if isinstance(v, _MACHINE_OBJECTS):
+        return True
+    if depth > 6:
+        return False
+    if isinstance(v, (list, tuple, set, frozenset)):
+        return any(_has_machine_object(x, depth + 1) for x in v)
+    if isinstance(v, dict):
+        return any(_has_machine_object(x, depth + 1) for x in v.values())
+    return False
+
+
+def snapshot(v: t.Any, depth: int = 0) -> t.Any:
+    """plain, comparable picture of a Machine value: instances become (class, {attribute: value})."""
+    if depth > 12:
+        raise NotModelled("value nests too deeply")
+    if isinstance(v, Obj):
+        return ("<instance>", v.ci.fq, tuple(sorted((k, snapshot(x, depth + 1)) for k, x in v.attrs.items())))
+    if isinstance(v, ExcVal):
+        return ("<exception>", v.kind)
+    if isinstance(v, (Fn, Cls, ModRef, Ext, Native, Closure, SuperRef)):
+        return ("<object>", type(v).__name__)
+    if isinstance(v, list):
+        return [snapshot(x, depth + 1) for x in v]
+    if isinstance(v, tuple):
+        return tuple(snapshot(x, depth + 1) for x in v)
+    if isinstance(v, dict):
+        return {k: snapshot(x, depth + 1) for k, x in v.items()}
+    return v
